@@ -123,9 +123,10 @@ def case_matrix(rng, tier):
     na = n if rng.random() < 0.3 else int(rng.integers(3, n + 1))
     act = np.sort(rng.choice(n, na, replace=False))
     Ka = eig.random_spd(rng, na, 10 ** rng.uniform(1, 8), band=int(rng.integers(1, 5)) if rng.random() < 0.4 else None)
-    K = sp.csr_matrix(eig.embed(Ka, n, act))
+    us = gen.unit_scale(rng)
+    K = sp.csr_matrix(eig.embed(Ka, n, act) * us)
     f1 = rng.normal(size=n); f2 = rng.normal(size=n)
-    c = Case({'obj': 'matrix', 'n': n, 'n_active': na})
+    c = Case({'obj': 'matrix', 'n': n, 'n_active': na, 'unit_scale': us})
     c.tag('obj:matrix', 'nullcols' if na < n else 'full')
     K0 = K.copy(); f1b = f1.copy()
     x1 = solve(K, f1, silent=True)
